@@ -104,7 +104,7 @@ def json_safe(o):
 
 
 def gen_election(rng, size="small", district=False, roles=None, min_reporting=8, unexpected=True, plain=False, n_states=None,
-                 many_districts=False):
+                 many_districts=False, n_districts=None, per_state_min=0):
     """size: small (15-40 units) | medium (40-120). plain=True: every unit reports or is partial (complete feed)."""
     e = Election()
     ns = rng.choice([1, 1, 2, 3]) if size == "small" else rng.choice([2, 3, 4])
@@ -119,11 +119,14 @@ def gen_election(rng, size="small", district=False, roles=None, min_reporting=8,
     per_state = max(3, n_target // ns)
     if many_districts:
         per_state = max(per_state, 26)
+    per_state = max(per_state, per_state_min)
     for si, s in enumerate(e.states):
         ncounty = 1 if e.unit_type == "county" else rng.randint(1, 4)
         counties = [f"{si + 1}{rng.randint(0, 9)}{ci:03d}" for ci in range(ncounty)] if e.unit_type != "county" else None
         cls = {}
         dists = [f"{d + 1:02d}" for d in range(rng.randint(1, 3))]
+        if n_districts:
+            dists = [f"{d + 1:02d}" for d in range(n_districts)]
         if many_districts:
             # ten or more districts labelled without padding ("2" sorts after "10" as text): the order of labels matters wherever
             # tables are put together by position
